@@ -44,26 +44,12 @@ Theorem C09_sibling_trick_only_depth1 : forall base ctx d f view_dir,
 Proof. exact sibling_trick_only_depth1. Qed.
 Print Assumptions C09_sibling_trick_only_depth1.
 
-(* navigation: a link of base.html / index.html is emitted only if its target page is written.
-   Full statement (FALSE of the code), the part that holds, and the refutation. *)
-Definition C09_nav_pages_statement : Prop :=
-  forall l c, In l nav_links -> wf_counts c = true -> nav_link_ok l c = true.
-
-Theorem C09_nav_pages_partial : forall l c,
-  In l nav_links -> wf_counts c = true -> region_index_files l c = false ->
-  nav_link_ok l c = true.
-Proof. exact nav_pages_partial. Qed.
-Print Assumptions C09_nav_pages_partial.
-
-Theorem C09_nav_region_exact : forall l c,
-  In l nav_links -> wf_counts c = true -> region_index_files l c = true ->
-  nl_cond l c = true -> target_ok (nl_target l) c = false.
-Proof. exact nav_region_exact. Qed.
-Print Assumptions C09_nav_region_exact.
-
-Theorem C09_nav_pages_refuted : ~ C09_nav_pages_statement.
-Proof. exact nav_pages_refuted. Qed.
-Print Assumptions C09_nav_pages_refuted.
+(* navigation: a link of base.html / index.html (list pages and single-entity links) is emitted only
+   if its target page is written -- every link of the regenerated list, all collection sizes/flags *)
+Theorem C09_nav_pages : forall l c,
+  In l nav_links -> wf_counts c = true -> nav_link_ok l c = true.
+Proof. exact nav_pages. Qed.
+Print Assumptions C09_nav_pages.
 
 (* relocatable: with project_url empty no generated URL is absolute *)
 Theorem C09_relative : forall setting out st,
